@@ -150,7 +150,8 @@ def gen_setup(rng, n, gap=False):
         ops.append({"s": "A", "cmd": cmd})
     ops.append({"s": "A", "cmd": "x SELECT inbox"})
     if total > n:
-        k = rng.randint(1, total)      # also the highest UID: UIDNEXT - 1 is then not the UID of the last message
+        # half of the time the highest UID goes: UIDNEXT - 1 is then not the UID of the last message (what `*` must denote)
+        k = total if rng.random() < 0.5 else rng.randint(1, total)
         ops.append({"s": "A", "cmd": f"x STORE {k} +FLAGS.SILENT (\\Deleted)"})
         ops.append({"s": "A", "cmd": f"x UID EXPUNGE {k}"})   # fresh mailbox: UID k is message k
     if n and rng.random() < 0.25:
